@@ -251,11 +251,28 @@ func (p *cparser) unary() CExpr {
 		q := &CQuant{Forall: t.val == "forall"}
 		for {
 			n := p.next()
+			// type: ident, *ident, []ident, pkg.ident
+			tyS := ""
+			for p.cur().val == "*" || p.cur().val == "[" {
+				if p.cur().val == "[" {
+					p.next()
+					p.expect("]")
+					tyS += "[]"
+				} else {
+					p.next()
+					tyS += "*"
+				}
+			}
 			ty := p.next()
 			if n.kind != "ident" || ty.kind != "ident" {
 				panic("bad quantifier binder")
 			}
-			q.Vars = append(q.Vars, [2]string{n.val, ty.val})
+			tyS += ty.val
+			if p.cur().val == "." {
+				p.next()
+				tyS += "." + p.next().val
+			}
+			q.Vars = append(q.Vars, [2]string{n.val, tyS})
 			if p.cur().val == "," {
 				p.next()
 				continue
